@@ -163,7 +163,9 @@ func c08(c *an.Check) {
 	le := an.Calls(rx, cLEUint32)
 	isLen := func(s *an.State, v ssa.Value) bool { return len(le) == 1 && s.Key(v) == s.Key(le[0]) }
 	lenReqs := []an.Req{
-		an.FactReq("length != 0", func(s *an.State, x, y ssa.Value, r an.Rel) bool { return isLen(s, x) && an.IsIntConst(y, 0) && r&an.EQ == 0 }),
+		an.FactReq("length != 0", func(s *an.State, x, y ssa.Value, r an.Rel) bool {
+			return isLen(s, x) && an.IsIntConst(y, 0) && r&an.EQ == 0
+		}),
 		an.FactReq("length <= maxPacketSize", func(s *an.State, x, y ssa.Value, r an.Rel) bool {
 			return isLen(s, x) && an.IsFieldLoad(y, maxF) && r != an.ANY && r&an.GT == 0
 		}),
@@ -417,7 +419,6 @@ func c08(c *an.Check) {
 	c.Trust("io.ReadFull reads exactly len(buf) bytes or fails", "encoding/binary.LittleEndian", "sync.Mutex", "FIFO order of Go channels (single sender)")
 }
 
-
 func rootOfVal(v ssa.Value) ssa.Value {
 	for i := 0; i < 8; i++ {
 		switch x := v.(type) {
@@ -457,8 +458,8 @@ func limitArgProvenance(c *an.Check, ctor an.Callee, idx int, construct string) 
 
 func init() {
 	register(&Def{ID: "C08", Run: c08,
-		Explain: "Decides on SSA for the packet connection and the message session: (EXACTREAD) the stream is read only through io.ReadFull; (BOUNDED/R1) the body read / allocation and the delivery happen only past prefix read ok, length!=0 (packet conn) and length<=limit; the delivered buffer is the one just filled and sized by the prefix; zero/over-limit prefixes and read failures end the pump with a non-nil error which the deferred cleanup records before closing the channel (single sender/closer); ReadFrom returns a nil error only when the caller's buffer is large enough and reports a closed channel as an error; (MIRROR) WriteTo/SendMsg emit exactly one buffer LE32(len)‖data and treat short writes/errors as errors; Session holds readMtx/sendMtx around its stream operations; limits are written only by the constructors and no call site passes a wire-derived limit.",
-		NotCov:  "exactly-once/in-order delivery as a history (follows from exact reads, one pump goroutine and FIFO channels — trusted); in Session a zero length prefix is the encoding of an empty message, so the 'zero-length ⇒ error' clause is decided for the packet connection only.",
+		Explain:     "Decides on SSA for the packet connection and the message session: (EXACTREAD) the stream is read only through io.ReadFull; (BOUNDED/R1) the body read / allocation and the delivery happen only past prefix read ok, length!=0 (packet conn) and length<=limit; the delivered buffer is the one just filled and sized by the prefix; zero/over-limit prefixes and read failures end the pump with a non-nil error which the deferred cleanup records before closing the channel (single sender/closer); ReadFrom returns a nil error only when the caller's buffer is large enough and reports a closed channel as an error; (MIRROR) WriteTo/SendMsg emit exactly one buffer LE32(len)‖data and treat short writes/errors as errors; Session holds readMtx/sendMtx around its stream operations; limits are written only by the constructors and no call site passes a wire-derived limit.",
+		NotCov:      "exactly-once/in-order delivery as a history (follows from exact reads, one pump goroutine and FIFO channels — trusted); in Session a zero length prefix is the encoding of an empty message, so the 'zero-length ⇒ error' clause is decided for the packet connection only.",
 		Assumptions: commonAssumptions})
 }
 
